@@ -477,6 +477,8 @@ static void gen_C11_like(const std::string &tier, uint64_t seed, long idx, Scn &
   long j = idx / nfiles;
   // classes, cycled by j
   if (j == 0) { s.faults.push_back(mkrec("trunc", {0})); return; }                                     // empty
+  if (j <= 15) { s.faults.push_back(mkrec("tmis", {1 + (T - 1 + j) % 16})); return; }                   // the authentic file, read with each of the 15 other thread counts
+  j -= 15;
   if (j <= 100) { s.faults.push_back(mkrec("garbage", {j, (long)(g.next() >> 2), 0, -1, -1})); return; } // every length 1..100 of random bytes
   j -= 101;
   if (j < 100) { s.faults.push_back(mkrec("garbage", {8 + j, (long)(g.next() >> 2), 1, -1, -1})); return; } // magic + random
@@ -520,13 +522,16 @@ static Verdict run_C11(const Scn &s) {
   Diff d = diff_files(B.F, F2, B.e.hmode);
   if (tagok && d.informative) return skipv("valid-tag-but-not-produced-by-encryption(outside-domain)");
   warm_up(s, B);
-  VD r = verify_and_decrypt(s, F2, key, B.T, HANG_VIOLATION);
+  // "tmis": the reader is constructed for another number of streams than the writer was (the format does not record it)
+  int Tdec = B.T;
+  for (auto &f : s.faults) if (f.kind == "tmis" && !f.a.empty()) Tdec = (int)f.a[0];
+  VD r = verify_and_decrypt(s, F2, key, Tdec, HANG_VIOLATION);
   Verdict v;
   v.case_hash = case_hash_faults(s);
-  v.nontrivial = d.any;
+  v.nontrivial = d.any || Tdec != B.T;
   v.trace_hash = r.trace;
   Verdict x;
-  long body = (long)F2.size() - 48 - 20 * B.T;
+  long body = (long)F2.size() - 48 - 20 * Tdec;
   if (!tagok && r.vret) x = viol("inauthentic-file-verifies", "verify returned true for a file whose tag is not the HMAC of its contents");
   else if (!tagok && r.dret) x = viol("inauthentic-file-decrypts", "decrypt returned true for a file whose tag is not the HMAC of its contents");
   else if (!r.dret && !r.dout.empty()) x = viol("failed-decrypt-wrote-output", "decryption reported failure but wrote " + std::to_string(r.dout.size()) + " bytes");
